@@ -35,6 +35,7 @@ const (
 	msgPark  = 1
 	msgDone  = 2
 	msgSpawn = 3
+	msgCtl   = 4 // a task asks the scheduler to tear down a task group (a process that exits)
 
 	kindYield    = 0
 	kindBlocked  = 1 // waiting for a mutex that was held when last looked at
@@ -102,6 +103,7 @@ type Sched struct {
 	traceCap    int
 	stepsA      atomic.Int64 // mirror of steps, stored by the scheduler only
 	idleQ       []func()
+	pendingAbort []int
 	pmu         sync.Mutex
 	// Panics lists real (non-abort) panics of tasks; read after Close.
 	Panics []string
@@ -288,6 +290,11 @@ func (s *Sched) Run() {
 			}
 		}
 		s.wake(t, cmdRun, 0)
+		for len(s.pendingAbort) > 0 {
+			g := s.pendingAbort[0]
+			s.pendingAbort = s.pendingAbort[1:]
+			s.AbortGroup(g)
+		}
 	}
 }
 
@@ -346,6 +353,8 @@ func (s *Sched) wake(t *task, cmd, arg uint32) {
 				}
 			}
 			outstanding--
+		case msgCtl:
+			s.pendingAbort = append(s.pendingAbort, int(a))
 		case msgSpawn:
 			c := s.newTask(fmt.Sprintf("%s/child%d", m.name, len(m.children)), m.group, m.id)
 			c.parked = false
@@ -487,6 +496,22 @@ func Yield(label string) {
 		panic(Aborted)
 	}
 	park(id, kindYield, 0, label)
+}
+
+// ExitGroup is called by a task whose simulated process exits (os.Exit in a callback): the scheduler
+// tears down every task of the group once the caller has unwound; the caller itself panics with
+// Aborted and so never returns into the code under test.
+func ExitGroup(group int) {
+	if active.Load() == nil {
+		return
+	}
+	id := me()
+	if id < 0 {
+		return
+	}
+	sendMsg(msgCtl, id, uint64(group), 0, "")
+	abortedFlag[id] = true
+	panic(Aborted)
 }
 
 // IsAborted reports whether the calling task has been torn down.
